@@ -178,16 +178,20 @@ def install(reg):
             h = p.heap[x.rid]
             if isinstance(h, HDict):
                 return p.alloc(h.clone())
-            if isinstance(h, HList) and getattr(h, "sorted_items_of", None) is not None:
+            if isinstance(h, HList) and h.tag.get("items_of") is not None:
+                return p.alloc(h.tag["items_of"].clone())       # dict(d.items()): same mapping, same order
+            if isinstance(h, HList) and h.tag.get("sorted_items_of") is not None:
                 # dict(sorted(list(d.items()))): same mapping, keys in ascending order
-                src = h.sorted_items_of
+                src = h.tag["sorted_items_of"]
                 t = p.dict_term(src)
                 keys = p.fresh("sorted_keys", KEYSEQ)
                 p.engine.sorted_perm_facts(p, keys, PV.dkeys(t))
+                p.assume(p.engine.uf("ascending", KEYSEQ, B)(keys))
+                p.engine.assumption("sorted(): python str order == raw-byte order of the UTF-8 encodings (DESIGN 3.3-7); "
+                                    "sorted(items) of a dict orders by key because keys are unique")
                 nd = HDict(sym=(keys, PV.dhas(t), PV.dmap(t)))
                 # nested mutable values keep their identity
                 nd.over = {k: v for k, v in src.over.items() if isinstance(v, VRef)}
-                nd.sorted_keys = True
                 return p.alloc(nd)
         raise Unsupported("dict() of that argument")
     E["dict"] = b_dict
@@ -250,11 +254,11 @@ def install(reg):
         if isinstance(x, VRef):
             h = p.heap[x.rid]
             if isinstance(h, HList):
-                src = getattr(h, "items_of", None)
+                src = h.tag.get("items_of")
                 res = HList(seq=p.fresh("sorted", PVSEQ))
                 p.assume(z3.Length(res.seq) == p.list_len(h))
                 if src is not None:
-                    res.sorted_items_of = src
+                    res.tag["sorted_items_of"] = src
                 else:
                     p.engine.sorted_perm_facts(p, res.seq, p.list_seq(h))
                 return p.alloc(res)
@@ -427,11 +431,17 @@ def install(reg):
             keys, mp = PV.dkeys(t), PV.dmap(t)
             p.engine.dict_wf_facts(p, t)
 
+            dom = snap.tag.get("key_domain")
+
             def rule(i):
                 p.engine.dict_key_facts(p, t, i)
-                return VTuple([VBox(pv_of_key(keys[i])), VBox(z3.Select(mp, keys[i]))])
+                if dom:
+                    p.assume(z3.Implies(z3.And(i >= 0, i < z3.Length(keys)),
+                                        z3.Or([keys[i] == key_of_const(c) for c in dom])))
+                kv = VStr(KEY.ks(keys[i])) if snap.tag.get("str_keys") else VBox(pv_of_key(keys[i]))
+                return VTuple([kv, VBox(z3.Select(mp, keys[i]))])
             res = HList(rule=(z3.Length(keys), rule))
-        res.items_of = h.clone()
+        res.tag["items_of"] = h.clone()
         return p.alloc(res)
     M[("HDict", "items")] = d_items
 
@@ -545,7 +555,19 @@ def install_engine_theories(Engine):
     Engine.dict_wf_facts = dict_wf_facts
 
     def dict_key_facts(self, path, t, i):
-        """well-formedness of dict term t instantiated at key index i: keys[i] is present"""
+        """well-formedness of dict term t instantiated at key index i: keys[i] is present and sits at index i only"""
         keys, has = PV.dkeys(t), PV.dhas(t)
-        path.assume(z3.Implies(z3.And(i >= 0, i < z3.Length(keys)), z3.Select(has, keys[i])))
+        idx = self.uf("key_index", KEYSEQ, KEY, I)
+        inr = z3.And(i >= 0, i < z3.Length(keys))
+        path.assume(z3.Implies(inr, z3.And(z3.Select(has, keys[i]), idx(keys, keys[i]) == i)))
     Engine.dict_key_facts = dict_key_facts
+
+    def key_index_facts(self, path, keys, has, kt):
+        """position of a key in the insertion-ordered key sequence of a dict (ground instance of dict
+        well-formedness: has[k] <=> k occurs in keys, at exactly one index)"""
+        idx = self.uf("key_index", KEYSEQ, KEY, I)
+        i = idx(keys, kt)
+        path.assume(z3.If(z3.Select(has, kt), z3.And(i >= 0, i < z3.Length(keys), keys[i] == kt), i == -1))
+        path.assume(z3.Select(has, kt) == self.uf("key_in", KEYSEQ, KEY, B)(keys, kt))
+        return i
+    Engine.key_index_facts = key_index_facts
